@@ -106,10 +106,14 @@ func (s *rtSource) Context() context.Context { return s.ctx }
 // rtAdminClient hands the prepared source stream to a receiver.
 type rtAdminClient struct {
 	adminservice.AdminServiceClient
-	src *rtSource
+	src  *rtSource
+	gate chan struct{} // non-nil: opening the stream takes until the gate is released
 }
 
 func (c *rtAdminClient) StreamWorkflowReplicationMessages(ctx context.Context, opts ...grpc.CallOption) (adminservice.AdminService_StreamWorkflowReplicationMessagesClient, error) {
+	if c.gate != nil {
+		<-c.gate
+	}
 	c.src.ctx = ctx
 	return c.src, nil
 }
@@ -204,6 +208,7 @@ type rtEnv struct {
 	logger    log.Logger
 	lateFrom  int  // targets with index >= lateFrom are connected by an explicit action
 	snapshotTasks bool
+	idleAction    bool // the action alphabet includes "everything idles for >1s" (keep-alives fire)
 	stallable     bool // the action alphabet includes stalling / resuming a target's Send
 	wmOnly        bool // restricted alphabet: sources emit watermark-only batches
 	identities    bool // tasks draw (namespace id, workflow id) from a 2x2 universe instead of being all distinct
